@@ -1467,6 +1467,96 @@ func manualFlushToggles(id string, optManual bool, toggles []bool, first string)
 	return res
 }
 
+// seqGateWriter parks every write in turn: write i returns when release(i) is called.
+type seqGateWriter struct {
+	mu      sync.Mutex
+	n       int
+	reached []chan struct{}
+	release []chan struct{}
+}
+
+func newSeqGateWriter(k int) *seqGateWriter {
+	g := &seqGateWriter{}
+	for i := 0; i < k; i++ {
+		g.reached = append(g.reached, make(chan struct{}))
+		g.release = append(g.release, make(chan struct{}))
+	}
+	return g
+}
+
+func (g *seqGateWriter) Write(p []byte) (int, error) {
+	g.mu.Lock()
+	i := g.n
+	g.n++
+	g.mu.Unlock()
+	census.Bump()
+	if i < len(g.reached) {
+		close(g.reached[i])
+		<-g.release[i]
+		census.Bump()
+	}
+	return len(p), nil
+}
+
+// queuedTerminalThenInTransport: a send is inside the transport, a terminal call (or a second send
+// followed by one) queues behind it on the stream's write lock, the send completes, and the queued
+// call's own packet is now inside the transport. The stream may be terminated by then; it is not
+// finished and its context is not done while that call is still in flight.
+func queuedTerminalThenInTransport(id string, op string) runner.Result {
+	gw := newSeqGateWriter(2)
+	wr := drpcwire.NewWriter(gw, 1)
+	st := drpcstream.NewWithOptions(context.Background(), streamID, wr, drpcstream.Options{})
+	d := []byte("first")
+	send := rig.Go("send", func() (interface{}, error) { return nil, st.MsgSend(&d, payload.Enc{}) })
+	where := fmt.Sprintf("[send inside the transport, %s queued behind it, the send completes, %s's own packet inside the transport]", op, op)
+	if s, _ := census.QuiesceOr(gw.reached[0], rig.Watchdog); s != "ready" {
+		return runner.Inconcl(id, where+": the send did not reach the transport")
+	}
+	call := rig.Go(op, func() (interface{}, error) {
+		switch op {
+		case "Close":
+			return nil, st.Close()
+		case "CloseSend":
+			return nil, st.CloseSend()
+		}
+		return nil, st.SendError(errors.New("failed"))
+	})
+	census.Quiesce(rig.Watchdog)
+	if op == "CloseSend" {
+		// the peer has half-closed already: this half-close is what terminates the stream
+		go st.HandlePacket(drpcwire.Packet{ID: drpcwire.ID{Stream: streamID, Message: 1}, Kind: drpcwire.KindCloseSend})
+		census.Quiesce(rig.Watchdog)
+	}
+	close(gw.release[0])
+	s2, _ := census.QuiesceOr(gw.reached[1], rig.Watchdog)
+	census.Quiesce(rig.Watchdog)
+	var fails []string
+	if s2 == "ready" && !call.Returned() {
+		if st.IsFinished() {
+			fails = append(fails, where+": the stream reports finished while the call is still writing its packet")
+		}
+		select {
+		case <-st.Context().Done():
+			fails = append(fails, where+": the stream's context is done while the call is still writing its packet")
+		default:
+		}
+	}
+	close(gw.release[1])
+	census.Quiesce(rig.Watchdog)
+	if !send.Returned() || !call.Returned() {
+		fails = append(fails, fmt.Sprintf("%s: at the end send returned=%v, %s returned=%v", where, send.Returned(), op, call.Returned()))
+	} else if !st.IsFinished() {
+		fails = append(fails, where+": every call returned and the stream is terminated but not finished")
+	}
+	st.Cancel(errCancel)
+	if len(fails) > 0 {
+		return runner.Violation(id, "state-machine:finished-while-a-queued-call-is-in-flight", strings.Join(fails, "\n"))
+	}
+	res := runner.Hold(id, where, s2 == "ready")
+	res.Events = 3
+	return res
+}
+
 // lockedBuffer is a bytes.Buffer safe for one writer and a reader of Len.
 type lockedBuffer struct {
 	mu sync.Mutex
@@ -1662,6 +1752,13 @@ func gen(tier string, seed uint64) []runner.Scenario {
 			how, end := how, end
 			id := fmt.Sprintf("shared-writer/%s/%s", how, end)
 			out = append(out, runner.Scenario{ID: id, Run: func() runner.Result { return sharedWriter(id, how, end) }})
+		}
+	}
+	for _, op := range []string{"Close", "CloseSend", "SendError"} {
+		for rep := 0; rep < 3; rep++ {
+			op := op
+			id := fmt.Sprintf("queued-terminal-then-in-transport/%s/%d", op, rep)
+			out = append(out, runner.Scenario{ID: id, Run: func() runner.Result { return queuedTerminalThenInTransport(id, op) }})
 		}
 	}
 	for _, optManual := range []bool{false, true} {
